@@ -77,7 +77,7 @@ def run(ctx):
     for fam, (_, members) in fams.items():
         ms = list(members)
         if qk and fam == "Grishagin":
-            ms = rng.sample(ms, 30)
+            ms = sorted(set(rng.sample(ms, 28)) | {ms[0], ms[-1], ms[9], ms[-2]})      # both ends of the family always (off-by-one at a table end)
         plan += [(fam, m) for m in ms]
     rng.shuffle(plan)            # construction order matters for state shared between instances
     for fam, m in plan:
